@@ -272,25 +272,24 @@ theorem expand_c_names_eq (sc : Scope) (fs : List Fn) :
     rw [List.flatMap_cons, List.filter_append, List.map_append, ih, cB r, e2, List.filter_append,
       List.flatMap_append]
 
-theorem expand_f_names_eq (sc : Scope) (fs : List Fn) :
-    ((expand sc fs).filter (fun r => r.wrap.f)).map (fImpl sc)
+theorem expand_f_names_eq' (pre : Str) (sc : Scope) (fs : List Fn) :
+    ((expand sc fs).filter (fun r => r.wrap.f)).map (nameWith pre)
       = ((core sc fs).filter (fun r => r.wrap.f)).flatMap
-          (fun r => (fExt r).map (nameExt sc.fScope r)) := by
-  have fG : ∀ r : Rec, ((genericRec r).filter (fun x => x.wrap.f)).map (fImpl sc)
-      = ([r].filter (fun x => x.wrap.f)).flatMap (fun r => (fExt r).map (nameExt sc.fScope r)) := by
+          (fun r => (fExt r).map (nameExt pre r)) := by
+  have fG : ∀ r : Rec, ((genericRec r).filter (fun x => x.wrap.f)).map (nameWith pre)
+      = ([r].filter (fun x => x.wrap.f)).flatMap (fun r => (fExt r).map (nameExt pre r)) := by
     intro r
     unfold genericRec fExt
     by_cases hf : r.wrap.f = true
     · by_cases hg : r.generics.isEmpty = true
       · have hg' : r.generics = [] := by simpa using hg
-        simp [hf, hg', List.filter_cons, nameExt, (f_names_predictable sc r).1]
+        simp [hf, hg', List.filter_cons, nameExt, nameWith]
       · have hg' : r.generics ≠ [] := by simpa using hg
         have hall : r.generics.filter (fun _ => true) = r.generics := List.filter_eq_self.2 (by simp)
-        simp [hf, hg', hall, List.filter_cons, List.filter_map, Function.comp_def, nameExt,
-          f_names_predictable]
+        simp [hf, hg', hall, List.filter_cons, List.filter_map, Function.comp_def, nameExt, nameWith]
     · simp [hf, List.filter_cons]
-  have fB : ∀ r : Rec, (((bufferifyRec r).flatMap genericRec).filter (fun x => x.wrap.f)).map (fImpl sc)
-      = ([r].filter (fun x => x.wrap.f)).flatMap (fun r => (fExt r).map (nameExt sc.fScope r)) := by
+  have fB : ∀ r : Rec, (((bufferifyRec r).flatMap genericRec).filter (fun x => x.wrap.f)).map (nameWith pre)
+      = ([r].filter (fun x => x.wrap.f)).flatMap (fun r => (fExt r).map (nameExt pre r)) := by
     intro r
     unfold bufferifyRec
     split
@@ -306,6 +305,18 @@ theorem expand_f_names_eq (sc : Scope) (fs : List Fn) :
     have e2 : r :: N = [r] ++ N := rfl
     rw [List.flatMap_cons, List.flatMap_append, List.filter_append, List.map_append, ih, fB r, e2,
       List.filter_append, List.flatMap_append]
+
+theorem fImpl_eq_nameWith (sc : Scope) : fImpl sc = nameWith sc.fScope := by
+  funext r; simp [(f_names_predictable sc r).1, nameWith]
+
+theorem fFunction_eq_nameWith (sc : Scope) : fFunction sc = nameWith [] := by
+  funext r; simp [(f_names_predictable sc r).2.1, nameWith]
+
+theorem expand_f_names_eq (sc : Scope) (fs : List Fn) :
+    ((expand sc fs).filter (fun r => r.wrap.f)).map (fImpl sc)
+      = ((core sc fs).filter (fun r => r.wrap.f)).flatMap
+          (fun r => (fExt r).map (nameExt sc.fScope r)) := by
+  rw [fImpl_eq_nameWith]; exact expand_f_names_eq' _ sc fs
 
 theorem cExt_renumber (s i : Nat) (r : Rec) : cExt (renumber s i r) = cExt r := by
   simp [cExt]
@@ -338,6 +349,75 @@ theorem expand_c_names_distinct (sc : Scope) (fs : List Fn)
     · simp
   · intro r hr ht e he
     simpa [cExt, tb r hr ht] using he
+
+/-- Hypotheses of the Fortran distinctness theorems, on the entry points of `stage1`. -/
+structure FortranOK (l : List Rec) : Prop where
+  core : CoreOK (fun w => w.f) l
+  tok : ∀ r ∈ l, eligible r = true → r.sfxLocal = true → isTok r.sfx = true
+  gl : ∀ r ∈ l, ∀ g ∈ r.generics, extLike g = true
+  gn : ∀ r ∈ l, r.generics.Nodup
+  tg : ∀ r ∈ l, eligible r = false → r.generics = []
+
+theorem expand_f_names_nodup (pre : Str) (sc : Scope) (fs : List Fn) (ok : FortranOK (stage1 sc fs)) :
+    (((expand sc fs).filter (fun r => r.wrap.f)).map (nameWith pre)).Nodup := by
+  rw [expand_f_names_eq']
+  refine number_ext_names_nodup (vis := fun w => w.f) fExt_renumber _ _ ok.core ⟨?_, ?_, ?_, ok.tok⟩
+  · intro r hr e he
+    unfold fExt at he
+    split at he
+    · simp at he; subst he; rfl
+    · exact ok.gl r hr e he
+  · intro r hr
+    unfold fExt
+    split
+    · simp
+    · exact ok.gn r hr
+  · intro r hr ht e he
+    simpa [fExt, ok.tg r hr ht] using he
+
+/-- **(c) each once.**  No generic interface and no type-bound generic lists a specific twice:
+    the members filed under any key are pairwise distinct (type-bound generics list the
+    binding names `F_name_function`, interfaces the procedure names `F_name_impl`). -/
+theorem generic_members_distinct (sc : Scope) (fs : List Fn) (ok : FortranOK (stage1 sc fs))
+    (sel : Rec → Bool) (pre : Str) (hsel : ∀ r, sel r = true → genericMember sc r = nameWith pre r)
+    (key : Str) :
+    (tableGet key (genericTable sc sel (expand sc fs) [])).Nodup := by
+  rw [tableGet_genericTable]
+  simp only [tableGet, List.nil_append]
+  have e : ((expand sc fs).filter fun r => r.wrap.f && sel r && genericKey sc r == key).map (genericMember sc)
+      = ((expand sc fs).filter fun r => r.wrap.f && sel r && genericKey sc r == key).map (nameWith pre) := by
+    apply List.map_congr_left
+    intro r hr
+    have := (List.mem_filter.1 hr).2
+    simp only [Bool.and_eq_true] at this
+    exact hsel r this.1.2
+  rw [e]
+  have sub : List.Sublist
+      (((expand sc fs).filter fun r => r.wrap.f && sel r && genericKey sc r == key).map (nameWith pre))
+      (((expand sc fs).filter (fun r => r.wrap.f)).map (nameWith pre)) := by
+    apply List.Sublist.map
+    have : ((expand sc fs).filter fun r => r.wrap.f && sel r && genericKey sc r == key)
+        = ((expand sc fs).filter (fun r => r.wrap.f)).filter (fun r => sel r && genericKey sc r == key) := by
+      rw [List.filter_filter]
+      congr 1; funext r
+      cases r.wrap.f <;> cases sel r <;> cases (genericKey sc r == key) <;> rfl
+    rw [this]
+    exact List.filter_sublist
+  exact (expand_f_names_nodup pre sc fs ok).sublist sub
+
+/-- Type-bound generics of a class: every `generic :: key => ...` lists each binding once. -/
+theorem type_bound_generic_members_distinct (sc : Scope) (fs : List Fn) (ok : FortranOK (stage1 sc fs))
+    (key : Str) : (tableGet key (genericTable sc (typeBound sc) (expand sc fs) [])).Nodup :=
+  generic_members_distinct sc fs ok (typeBound sc) [] (by
+    intro r h; simp [genericMember, h, fFunction_eq_nameWith]) key
+
+/-- Module-level interfaces: every `interface key` lists each procedure once. -/
+theorem interface_members_distinct (sc : Scope) (fs : List Fn) (ok : FortranOK (stage1 sc fs))
+    (key : Str) : (tableGet key (genericTable sc (moduleLevel sc) (expand sc fs) [])).Nodup :=
+  generic_members_distinct sc fs ok (moduleLevel sc) sc.fScope (by
+    intro r h
+    have : typeBound sc r = false := by simpa [moduleLevel] using h
+    simp [genericMember, this, fImpl_eq_nameWith]) key
 
 /-- **(b) Fortran module entities, whole pipeline.**  All Fortran specific names a scope
     emits, including the `function_suffix ++ generic_suffix` names of `fortran_generic`
@@ -497,12 +577,12 @@ example : ScopesSep [(exScope, exFns), ({ exScope with cScope := "ns2_".toList }
   unfold ScopesSep
   decide +kernel
 
-/-- **(c) generic interfaces.**  The `f_function_generic` table built while wrapping lists,
-    under every key, exactly the Fortran implementation names of the wrapped records filed
-    under that key, in order. -/
-theorem generic_interface_members (sc : Scope) (recs : List Rec) (key : Str) :
-    tableGet key (genericTable sc recs [])
-      = (recs.filter fun r => r.wrap.f && genericKey sc r == key).map (fImpl sc) := by
+/-- **(c) generic interfaces and type-bound generics.**  The table built while wrapping
+    (per module for interfaces, per class for `generic ::` bindings) lists, under every key,
+    exactly the names of the wrapped records of that kind filed under that key, in order. -/
+theorem generic_interface_members (sc : Scope) (sel : Rec → Bool) (recs : List Rec) (key : Str) :
+    tableGet key (genericTable sc sel recs [])
+      = (recs.filter fun r => r.wrap.f && sel r && genericKey sc r == key).map (genericMember sc) := by
   rw [tableGet_genericTable]; simp [tableGet]
 
 end Shroud.Names
